@@ -131,6 +131,9 @@ class AstTreeProfiler:
         for tree_index in argsort_tree_indexes:
             name = tree_imports_to_profile_dict[tree_index]
             expr = ast_create_profile_node(name)
+            # The inserted statement belongs to the line of the import
+            for new_node in ast.walk(expr):
+                ast.copy_location(new_node, tree.body[tree_index])
             tree.body.insert(tree_index + 1, expr)
             profiled_imports.append(name)
         if profile_full_script:
